@@ -278,6 +278,12 @@ func (w *World) rulesReturns(p *Pkg, m *parseModel, km *KvmModel, add func(ok bo
 		if o := identObj(info, r1); o != nil {
 			if _, isLocal := o.(*types.Var); isLocal && o.Parent() != p.P.Types.Scope() {
 				okP := false
+				// `if err != nil { …; return nil, err }` on a variable assigned earlier
+				if ifs != nil && inBody && ifs.Init == nil {
+					if be, ok := ifs.Cond.(*ast.BinaryExpr); ok && be.Op == token.NEQ && identObj(info, be.X) == o && isNilIdent(info, be.Y) && !assignedIn(info, ifs.Body, o) {
+						okP = true
+					}
+				}
 				if ifs != nil && inBody && ifs.Init != nil {
 					if as, ok := ifs.Init.(*ast.AssignStmt); ok && identObj(info, as.Lhs[len(as.Lhs)-1]) == o {
 						if be, ok := ifs.Cond.(*ast.BinaryExpr); ok && be.Op == token.NEQ && identObj(info, be.X) == o && isNilIdent(info, be.Y) {
@@ -437,12 +443,16 @@ func (w *World) rulesReturns(p *Pkg, m *parseModel, km *KvmModel, add func(ok bo
 		}
 		w.Extra["v3_missing_check_order_"+p.Key] = strings.Join(missingOrder, ",") + " (specification order " + strings.Join(want, ",") + "; observed, not asserted)"
 	} else {
-		if counts["short"] == 0 {
+		if counts["short"] == 0 && m.autoOK {
+			add(true, "R01.complete", "ParseVector.short", fd, "the cursor automaton rejects every input that ends inside a group that must be complete")
+		} else if counts["short"] == 0 {
 			add(false, "R01.complete", "ParseVector.short", fd, "no check after the loop that the last started group is complete (ErrTooShortVector)")
 		} else {
 			add(true, "R01.complete", "ParseVector.short", fd, "a cursor test after the loop guards the success return")
 		}
-		if counts["order"] == 0 {
+		if counts["order"] == 0 && m.autoOK {
+			add(true, "R18.census", "ParseVector.order", fd, "which error each misplaced element yields is decided on the cursor automaton (R18.auto)")
+		} else if counts["order"] == 0 {
 			add(false, "R18.census", "ParseVector.order", fd, "no ErrInvalidMetricOrder site")
 		}
 	}
